@@ -30,11 +30,15 @@ func (w *vRW) WriteHeader(int)             {}
 
 type vReq struct {
 	method, remote, host, proto, ua, ref, path, custom string
+	abs                                                bool // absolute-form request target (forward proxy): scheme and host are part of the URL
 }
 
 func (q vReq) build() *http.Request {
 	r := &http.Request{Method: q.method, RemoteAddr: q.remote, Host: q.host, Proto: q.proto,
 		URL: &url.URL{Path: q.path}, Header: http.Header{}}
+	if q.abs {
+		r.URL.Scheme, r.URL.Host = "http", q.host
+	}
 	if q.ua != "" {
 		r.Header["User-Agent"] = []string{q.ua}
 	}
@@ -95,7 +99,7 @@ func VH_C18_isolation() {
 	})
 	chain := vChain(base, mask, final)
 	a := vReq{method: "GET" + zzverif.String(1), remote: "10.0.0.1:1111", host: "a.example:80", proto: "HTTP/1.1", ua: "agentA", ref: "refA", path: "/a", custom: "customA"}
-	b := vReq{method: "POST", remote: "10.0.0.2:2222", host: "b.example:81", proto: "HTTP/2.0", ua: "agentB", ref: "refB", path: "/b" + zzverif.String(1), custom: "customB"}
+	b := vReq{method: "POST", remote: "10.0.0.2:2222", host: "b.example:81", proto: "HTTP/2.0", ua: "agentB", ref: "refB", path: "/b" + zzverif.String(1), custom: "customB", abs: true}
 	zzverif.TrackWrites(true)
 	vServe(chain, a, "\"etagA\"")
 	vServe(chain, b, "\"etagB\"")
@@ -112,6 +116,7 @@ func VH_C18_isolation() {
 	zzverif.Assert(vHas(la, `"base":"b"`) && vHas(lb, `"base":"b"`), "the base logger's context is inherited")
 	if mask&0x7fff == 0x7fff {
 		zzverif.Assert(vHas(la, `"remote":"10.0.0.1:1111"`) && vHas(la, `"ip":"10.0.0.1"`) && vHas(la, `"ua":"agentA"`) && vHas(la, `"ref":"refA"`) && vHas(la, `"proto":"HTTP/1.1"`) && vHas(la, `"ver":"1.1"`) && vHas(la, `"custom":"customA"`) && vHas(la, `"host":"a.example:80"`) && vHas(la, `"hostnoport":"a.example"`) && vHas(la, `"url":"/a"`), "request A's event carries exactly request A's values")
+		zzverif.Assert(vHas(lb, `"url":"http://b.example:81/b`) && vHas(lb, `"request":"POST http://b.example:81/b`), "an absolute-form request target is logged as the request's full URL")
 		zzverif.Assert(vHas(lb, `"remote":"10.0.0.2:2222"`) && vHas(lb, `"ip":"10.0.0.2"`) && vHas(lb, `"ua":"agentB"`) && vHas(lb, `"method":"POST"`) && vHas(lb, `"proto":"HTTP/2.0"`) && vHas(lb, `"ver":"2.0"`) && vHas(lb, `"hostnoport":"b.example"`), "request B's event carries exactly request B's values")
 	}
 	// the base logger still emits only its own context
